@@ -26,14 +26,14 @@ pub fn parts_for(prop: &str) -> Vec<MiriPart> {
     let chunker = |q, t| MiriPart { scenario: "chunker", quick: q, thorough: t, seeds_per_workload: 0, what: "real BodyWriter thread x real consumer thread, free-running under Miri's seeded pre-emptive scheduler (basic-block granularity; deadlock = lost wake-up; data races and UB reported)" };
     let files = |q, t| MiriPart { scenario: "files", quick: q, thorough: t, seeds_per_workload: 16, what: "2-3 threads sharing one ChunkedReadFile (metadata, direct streams, serve()) under Miri's seeded pre-emptive scheduler, real files" };
     match prop {
-        "C10" => vec![chunker(96, 8192)],
-        "C11" => vec![chunker(64, 6144)],
-        "C08" => vec![chunker(32, 4096)],
-        "C12" => vec![chunker(32, 4096)],
-        "C20" => vec![chunker(32, 4096)],
-        "C18" => vec![files(48, 4096)],
-        "C13" => vec![files(32, 2048)],
-        "C02" => vec![files(32, 2048)],
+        "C10" => vec![chunker(48, 2048)],
+        "C11" => vec![chunker(32, 1024)],
+        "C08" => vec![chunker(16, 512)],
+        "C12" => vec![chunker(16, 512)],
+        "C20" => vec![chunker(16, 512)],
+        "C18" => vec![files(32, 768)],
+        "C13" => vec![files(16, 384)],
+        "C02" => vec![files(16, 384)],
         _ => vec![],
     }
 }
@@ -66,7 +66,7 @@ fn scratch_dir() -> String {
 
 fn base_flags(scenario: &str) -> String {
     match scenario {
-        "files" => "-Zmiri-disable-isolation -Zmiri-env-forward=MSIM_DIR".to_string(),
+        "files" => "-Zmiri-disable-isolation".to_string(),
         _ => String::new(),
     }
 }
@@ -82,7 +82,7 @@ fn run_miri(flags: &str, args: &[String]) -> Result<Out, String> {
     for a in args {
         c.arg(a);
     }
-    c.env("MIRIFLAGS", flags).env("CARGO_NET_OFFLINE", "true").env("MSIM_DIR", scratch_dir()).env_remove("RUSTFLAGS").env_remove("CARGO_TARGET_DIR");
+    c.env("MIRIFLAGS", flags).env("CARGO_NET_OFFLINE", "true").env_remove("RUSTFLAGS").env_remove("CARGO_TARGET_DIR");
     let o = c.output().map_err(|e| format!("cannot start cargo miri: {e}"))?;
     let mut text = String::from_utf8_lossy(&o.stdout).to_string();
     text.push_str(&String::from_utf8_lossy(&o.stderr));
@@ -156,6 +156,11 @@ enum Workload {
 impl Workload {
     fn args(&self, scenario: &str, focus: &str) -> Vec<String> {
         let mut a = vec![scenario.to_string(), focus.to_string()];
+        if scenario == "files" {
+            // through argv: cargo-miri replays build-time environment variables into the program
+            a.push("--dir".into());
+            a.push(scratch_dir());
+        }
         match self {
             Workload::FromMiriSeed => {}
             Workload::Seeded(w) => {
@@ -273,73 +278,104 @@ pub fn run(prop: &'static str, part: &MiriPart, thorough: bool, seed: u64, stats
             batches.push((Workload::Seeded(base + w), base, base + part.seeds_per_workload));
         }
     }
+    // Waves of 16 single-seed interpreter processes (measured: 60 % more runs per second than
+    // -Zmiri-many-seeds, and every execution's own output is at hand). Within a wave all seeds
+    // finish before the lowest failing one is taken, so the report does not depend on timing.
     'outer: for (wl, a, b) in batches {
-        let mut a = a;
-        while a < b {
-            let flags = format!("{} -Zmiri-many-seeds={a}..{b}", base_flags(part.scenario));
-            let out = run_miri(flags.trim(), &wl.args(part.scenario, prop))?;
-            let oks = absorb(&out.text, stats, &mut sigs, &mut rep.samples);
-            if out.ok && !out.text.contains("FAILING SEED") {
-                rep.runs += b - a;
-                let _ = oks;
-                break;
-            }
-            // Something failed in this batch: pin it down deterministically.
-            match lowest_failing(part.scenario, prop, a, b, &wl)? {
-                Some((fseed, fout, (p, code, msg))) => {
-                    rep.runs += fseed - a + 1;
-                    let tape = parse_tape(&fout.text);
-                    let (min_tape, min_seed, attempts): (Option<Vec<u32>>, u64, u64) = match &tape {
-                        Some(t) => shrink(part.scenario, prop, t.clone(), fseed, (&p, &code), if thorough { 120.0 } else { 45.0 }),
-                        None => (None, fseed, 0),
-                    };
-                    // Final, authoritative execution of what goes into the replay file; if the
-                    // minimised form does not fail the same way, the original execution is kept.
-                    let mut final_wl = match &min_tape { Some(t) => Workload::Tape(t.clone()), None => wl.clone() };
-                    let mut final_seed = min_seed;
-                    let mut fin = single(part.scenario, prop, final_seed, &final_wl)?;
-                    let same = |o: &Out| !o.ok && classify(prop, &o.text).map(|c| c.0 == p && c.1 == code).unwrap_or(false);
-                    if !same(&fin) {
-                        final_wl = wl.clone();
-                        final_seed = fseed;
-                        fin = fout;
-                    }
-                    let min_seed = final_seed;
-                    let min_tape: Vec<u32> = match &final_wl { Workload::Tape(t) => t.clone(), _ => Vec::new() };
-                    let (p2, code2, msg2) = classify(prop, &fin.text).unwrap_or((p.clone(), code.clone(), msg.clone()));
-                    let trace: Vec<String> = fin.text.lines().filter(|l| l.starts_with("CONFIG") || l.starts_with("TAPE") || l.contains("ORACLE") || l.contains("deadlock") || l.contains("Undefined Behavior") || l.contains("Data race") || l.contains("panicked at")).map(|l| l.to_string()).take(40).collect();
-                    let rj = json!({
-                        "property": p2, "oracle": code2, "message": msg2, "engine": "miri-sim", "focus": prop, "scenario": part.scenario,
-                        "deep": thorough, "seed": seed, "miri_seed": min_seed, "miri_flags": base_flags(part.scenario),
-                        "args": final_wl.args(part.scenario, prop), "tape": min_tape, "tape_original_len": tape.as_ref().map(|t| t.len()).unwrap_or(0),
-                        "original": {"miri_seed": fseed, "args": wl.args(part.scenario, prop)},
-                        "shrink_attempts": attempts, "trace": trace, "repo_head": repo_head(),
-                        "how_to_replay": "./check replay <this file>  (runs: MIRIFLAGS='<miri_flags> -Zmiri-seed=<miri_seed>' cargo +nightly miri run --manifest-path /verif/msim/Cargo.toml -- <args>)",
-                    });
-                    let path = write_replay(&rj, prop, seed, fseed);
-                    rep.found = Some(MiriFound { prop: p2, oracle: code2, msg: msg2, path });
-                    break 'outer;
-                }
-                None => {
-                    // The batch failed for a reason that is not this property's clause (e.g. a
-                    // lost wake-up while judging C20): count it and go on after the failing seed.
-                    rep.ignored_failures += 1;
-                    let f = out.text.lines().find_map(|l| l.strip_prefix("FAILING SEED: ").and_then(|s| s.trim().parse::<u64>().ok()));
-                    match f {
-                        Some(f) if f >= a && f < b => {
-                            rep.runs += f - a + 1;
-                            a = f + 1;
-                        }
-                        _ => {
-                            rep.runs += b - a;
+        {
+            // 16 workers pull seeds from one counter; once a seed has failed nobody starts a new
+            // one, the executions in flight finish, and the lowest failing seed wins.
+            let next = std::sync::Arc::new(std::sync::atomic::AtomicU64::new(a));
+            let stop = std::sync::Arc::new(std::sync::atomic::AtomicBool::new(false));
+            let results: std::sync::Arc<std::sync::Mutex<Vec<(u64, Result<Out, String>)>>> = Default::default();
+            let hs: Vec<_> = (0..16)
+                .map(|_| {
+                    let (sc, fo, w) = (part.scenario.to_string(), prop.to_string(), wl.clone());
+                    let (next, stop, results) = (next.clone(), stop.clone(), results.clone());
+                    std::thread::spawn(move || loop {
+                        if stop.load(std::sync::atomic::Ordering::SeqCst) {
                             break;
                         }
+                        let sd = next.fetch_add(1, std::sync::atomic::Ordering::SeqCst);
+                        if sd >= b {
+                            break;
+                        }
+                        let r = single(&sc, &fo, sd, &w);
+                        // stop for a failure that is this property's clause (or a harness error)
+                        if r.as_ref().map(|o| !o.ok && classify(&fo, &o.text).is_some()).unwrap_or(true) {
+                            stop.store(true, std::sync::atomic::Ordering::SeqCst);
+                        }
+                        results.lock().unwrap().push((sd, r));
+                    })
+                })
+                .collect();
+            for h in hs {
+                h.join().map_err(|_| "miri runner thread panicked".to_string())?;
+            }
+            let mut raw = std::mem::take(&mut *results.lock().unwrap());
+            raw.sort_by_key(|r| r.0);
+            let mut res = Vec::new();
+            for (sd, r) in raw {
+                res.push((sd, r?));
+            }
+            let stopped_early = stop.load(std::sync::atomic::Ordering::SeqCst);
+            let mut failure: Option<(u64, Out, (String, String, String))> = None;
+            for (sd, out) in res {
+                if out.ok {
+                    absorb(&out.text, stats, &mut sigs, &mut rep.samples);
+                    rep.runs += 1;
+                    continue;
+                }
+                match classify(prop, &out.text) {
+                    Some(c) => {
+                        rep.runs += 1;
+                        failure = Some((sd, out, c));
+                        break;
+                    }
+                    None => {
+                        // not this property's clause (e.g. a lost wake-up while judging C20)
+                        rep.ignored_failures += 1;
+                        rep.runs += 1;
                     }
                 }
             }
-        }
-        if t0.elapsed().as_secs_f64() > if thorough { 3600.0 } else { 240.0 } {
-            break; // wall-clock cap; the evidence reports the runs actually made
+            if let Some((fseed, fout, (p, code, msg))) = failure {
+                let tape = parse_tape(&fout.text);
+                let (min_tape, min_seed, attempts): (Option<Vec<u32>>, u64, u64) = match &tape {
+                    Some(t) => shrink(part.scenario, prop, t.clone(), fseed, (&p, &code), if thorough { 120.0 } else { 45.0 }),
+                    None => (None, fseed, 0),
+                };
+                // Final, authoritative execution of what goes into the replay file; if the
+                // minimised form does not fail the same way, the original execution is kept.
+                let mut final_wl = match &min_tape { Some(t) => Workload::Tape(t.clone()), None => wl.clone() };
+                let mut final_seed = min_seed;
+                let mut fin = single(part.scenario, prop, final_seed, &final_wl)?;
+                let same = |o: &Out| !o.ok && classify(prop, &o.text).map(|c| c.0 == p && c.1 == code).unwrap_or(false);
+                if !same(&fin) {
+                    final_wl = wl.clone();
+                    final_seed = fseed;
+                    fin = fout;
+                }
+                let min_seed = final_seed;
+                let min_tape: Vec<u32> = match &final_wl { Workload::Tape(t) => t.clone(), _ => Vec::new() };
+                let (p2, code2, msg2) = classify(prop, &fin.text).unwrap_or((p.clone(), code.clone(), msg.clone()));
+                let trace: Vec<String> = fin.text.lines().filter(|l| l.starts_with("CONFIG") || l.starts_with("TAPE") || l.contains("ORACLE") || l.contains("deadlock") || l.contains("Undefined Behavior") || l.contains("Data race") || l.contains("panicked at")).map(|l| l.to_string()).take(40).collect();
+                let rj = json!({
+                    "property": p2, "oracle": code2, "message": msg2, "engine": "miri-sim", "focus": prop, "scenario": part.scenario,
+                    "deep": thorough, "seed": seed, "miri_seed": min_seed, "miri_flags": base_flags(part.scenario),
+                    "args": final_wl.args(part.scenario, prop), "tape": min_tape, "tape_original_len": tape.as_ref().map(|t| t.len()).unwrap_or(0),
+                    "original": {"miri_seed": fseed, "args": wl.args(part.scenario, prop)},
+                    "shrink_attempts": attempts, "trace": trace, "repo_head": repo_head(),
+                    "how_to_replay": "./check replay <this file>  (runs: MIRIFLAGS='<miri_flags> -Zmiri-seed=<miri_seed>' cargo +nightly miri run --manifest-path /verif/msim/Cargo.toml -- <args>)",
+                });
+                let path = write_replay(&rj, prop, seed, fseed);
+                rep.found = Some(MiriFound { prop: p2, oracle: code2, msg: msg2, path });
+                break 'outer;
+            }
+            let _ = (stopped_early, a);
+            if t0.elapsed().as_secs_f64() > if thorough { 3600.0 } else { 240.0 } {
+                break 'outer; // wall-clock cap; the evidence reports the runs actually made
+            }
         }
     }
     stats.sigs.extend(sigs.iter().copied());
